@@ -76,6 +76,12 @@ impl<'a, T: Read + Write + Seek> PointCloudWriter<'a, T> {
         // Prepare byte stream buffers
         let byte_streams = vec![ByteStreamWriteBuffer::new(); prototype.len()];
 
+        // Sections must start at a 4-byte boundary. An earlier operation that was aborted,
+        // for example a blob whose data source failed, can leave the writer at any position.
+        writer
+            .align()
+            .write_err("Failed to align writer before writing point cloud section")?;
+
         // Write preliminary section header with incomplete length and wrong offsets
         let mut section_header = CompressedVectorSectionHeader::default();
         let section_offset = writer.physical_position()?;
